@@ -151,7 +151,11 @@ def rule_pairing(ctx: Ctx) -> None:
             d = A.dotted(x) or ""
             if d.endswith(".borrowed_amount"):
                 loan_var = d.split(".")[0]
-        ctx.require(loan_var is not None, f"C02.4: cannot tell which loan's principal is the borrowed delta in {fn.qualname}")
+        if loan_var is None:
+            ctx.bad("C02.4", f"the borrowed delta in {fn.name} is the principal of the loan it registers/closes", fn, c,
+                    f"borrowed_updates={ast.unparse(bu)[:60]} is not built from <loan>.borrowed_amount: the borrowed balance moves by a number "
+                    "that need not equal the principal recorded on the loan (borrowed != sum of open principals)")
+            continue
         if cls == "loan-open":
             def is_pair(nn):
                 return any(isinstance(x, ast.Call) and (A.call_name(x) or "") == "self._loans.add" and x.args
